@@ -491,7 +491,12 @@ impl<
                 // future time zone transitions.
                 return posix_tz.next_transition(ts);
             }
-            self.timestamps().len() - 1
+            // Without a POSIX time zone, there are no transitions beyond
+            // the ones recorded explicitly.
+            if index >= self.timestamps().len() {
+                return None;
+            }
+            index
         } else {
             index
         };
